@@ -22,6 +22,8 @@ pub enum IOp {
     Clear,
     Extend(Vec<usize>),
     Reserve(usize),
+    /// serialise to JSON text, drop, deserialise (C16 for bare index containers)
+    Restart,
 }
 
 pub const NLETTERS: u64 = 10;
@@ -84,6 +86,10 @@ trait Ic {
     fn reserve(&mut self, n: usize);
     fn heap(&self) -> Vec<(usize, usize)>;
     fn fingerprint(&self) -> String;
+    fn full_debug(&self) -> String;
+    fn restart(&self) -> Result<Self, String>
+    where
+        Self: Sized;
 }
 
 impl Ic for Stride {
@@ -121,6 +127,13 @@ impl Ic for Stride {
     }
     fn fingerprint(&self) -> String {
         format!("{:?}", self)
+    }
+    fn full_debug(&self) -> String {
+        format!("{:?}", self)
+    }
+    fn restart(&self) -> Result<Self, String> {
+        let text = serde_json::to_string(self).map_err(|e| e.to_string())?;
+        serde_json::from_str(&text).map_err(|e| format!("{e} (text {text})"))
     }
 }
 
@@ -165,6 +178,13 @@ macro_rules! ic_container {
                 let d = format!("{:?}", self);
                 // variant / phase only: strip digits
                 d.chars().filter(|c| !c.is_ascii_digit()).take(80).collect()
+            }
+            fn full_debug(&self) -> String {
+                format!("{:?}", self)
+            }
+            fn restart(&self) -> Result<Self, String> {
+                let text = serde_json::to_string(self).map_err(|e| e.to_string())?;
+                serde_json::from_str(&text).map_err(|e| format!("{e} (text {})", crate::trunc(&text, 200)))
             }
         }
     };
@@ -223,7 +243,7 @@ impl IdxScen {
                 },
                 IOp::Val(v) => vec![*v],
                 IOp::Extend(vs) => vs.clone(),
-                IOp::Clear | IOp::Reserve(_) => vec![],
+                IOp::Clear | IOp::Reserve(_) | IOp::Restart => vec![],
             };
             let is_clear = matches!(op, IOp::Clear | IOp::Letter(9));
             if is_clear {
@@ -242,6 +262,30 @@ impl IdxScen {
                 spilled = false;
                 wide_seen = false;
                 dig.str("clear");
+            } else if let IOp::Restart = op {
+                let before = c.full_debug();
+                match catch(|| alloc::with_owner(1, || c.restart())) {
+                    Ok(Ok(n)) => {
+                        if n.full_debug() != before && model.len() <= 64 {
+                            out.fail = fail("restart-changed-state", step, format!("state {} became {} through its own serialisation", crate::trunc(&before, 200), crate::trunc(&n.full_debug(), 200)));
+                            return out;
+                        }
+                        let old = std::mem::replace(&mut c, n);
+                        let _ = catch(move || alloc::with_owner(1, move || drop(old)));
+                        out.hit("restart");
+                        if spilled {
+                            out.hit("restart_after_spill");
+                        }
+                    }
+                    Ok(Err(e)) => {
+                        out.fail = fail("restart-failed", step, format!("deserialising the container's own output failed: {e}"));
+                        return out;
+                    }
+                    Err(p) => {
+                        out.fail = fail("panicked", step, format!("serialise/deserialise panicked: {}", p.short()));
+                        return out;
+                    }
+                }
             } else if let IOp::Reserve(n) = op {
                 if let Err(p) = catch(|| alloc::with_owner(1, || c.reserve(*n))) {
                     out.fail = fail("panicked", step, format!("reserve({n}) panicked: {}", p.short()));
@@ -356,13 +400,13 @@ impl IdxScen {
                     out.fail = fail("cost-differs", step, format!("Σused = {used} but the documented rule gives {expected} bytes for {:?} (stride prefix {stride_prefix})", tail(&model)));
                     return out;
                 }
-                if expected == 0 && !ever_spilled && !ops[..=step].iter().any(|o| matches!(o, IOp::Reserve(_))) {
+                if expected == 0 && !ever_spilled && !ops[..=step].iter().any(|o| matches!(o, IOp::Reserve(_) | IOp::Restart)) {
                     out.hit("zero_cost_state");
                     if cap != 0 || live != 0 {
                         out.fail = fail("heap-for-free-shape", step, format!("a free-shaped sequence {:?} reports capacity {cap} and holds {live} live bytes", tail(&model)));
                         return out;
                     }
-                } else if expected > 0 && live > 2 * expected + 64 && !ops[..=step].iter().any(|o| matches!(o, IOp::Reserve(_) | IOp::Clear | IOp::Letter(9))) {
+                } else if expected > 0 && live > 2 * expected + 64 && !ops[..=step].iter().any(|o| matches!(o, IOp::Reserve(_) | IOp::Clear | IOp::Letter(9) | IOp::Restart)) {
                     out.fail = fail("live-bytes-exceed-bound", step, format!("{live} live bytes for a documented cost of {expected}"));
                     return out;
                 }
@@ -436,7 +480,7 @@ impl IdxScen {
                                 n += 1;
                             }
                         }
-                        IOp::Reserve(_) => {}
+                        IOp::Reserve(_) | IOp::Restart => {}
                     });
                     if let Err(p) = r {
                         out.fail = fail("panicked", step, p.short());
@@ -508,6 +552,9 @@ impl Scenario for IdxScen {
             for _ in 0..len {
                 ops.push(IOp::Letter((off % NLETTERS) as u8));
                 off /= NLETTERS;
+                if self.prop == 16 {
+                    ops.push(IOp::Restart);
+                }
             }
             return ops;
         }
@@ -552,6 +599,9 @@ impl Scenario for IdxScen {
                 }
             };
             ops.push(op);
+            if self.prop == 16 && rng.chance(1, 6) {
+                ops.push(IOp::Restart);
+            }
         }
         ops
     }
@@ -571,6 +621,7 @@ impl Scenario for IdxScen {
             IOp::Clear => json!({"clear": true}),
             IOp::Extend(vs) => json!({"extend": vs}),
             IOp::Reserve(n) => json!({"reserve": n}),
+            IOp::Restart => json!({"restart": true}),
         }
     }
     fn op_from_json(&self, j: &J) -> Option<IOp> {
@@ -585,6 +636,9 @@ impl Scenario for IdxScen {
         }
         if let Some(vs) = j.get("extend") {
             return Some(IOp::Extend(vs.as_array()?.iter().map(|x| x.as_u64().map(|y| y as usize)).collect::<Option<Vec<_>>>()?));
+        }
+        if j.get("restart").is_some() {
+            return Some(IOp::Restart);
         }
         if let Some(n) = j.get("reserve") {
             return Some(IOp::Reserve(n.as_u64()? as usize));
